@@ -24,7 +24,7 @@ REQUIRED_BUCKETS = ['qe:scalar', 'qe:vector', 'qe:spectrum', 'qe:offset-table', 
                     'bayer:k=2', 'bayer:k=3', 'bayer:k=4', 'bayer:os=1', 'bayer:os=2', 'bayer:os>=3', 'bayer:nonsquare',
                     'bayer:channels', 'bayer:spectrum-qe', 'bayer:unit!=nm', 'gain:scalar', 'gain:poly', 'gain:pixel', 'gain:pixel-poly', 'adc:negative',
                     'adc:saturated', 'adc:dtype', 'adc:warn', 'adc:max==capacity', 'adc:small-int-frame', 'bayer:cube-not-float64', 'adc:beyond-dtype-range', 'adc:capacity=0',
-                    'qe:narrow-qe-vector', 'qe:table-ends-other-unit', 'qe:single-wavelength', 'cube:narrow-float', 'unit:alias']
+                    'qe:narrow-qe-vector', 'qe:table-ends-other-unit', 'qe:single-wavelength', 'cube:narrow-float', 'unit:alias', 'adc:narrow-float-frame', 'adc:beyond-64-bit', 'qe:spectrum-narrow-wave']
 REQUIRED_ANCHORS = ['probe:collect_charge', 'probe:collect_charge_bayer', 'probe:adc', 'anchor:qe_asarray',
                     'anchor:format_bayer_string']
 REQUIRED_ORACLES = ['charge=sum', 'charge:qe-forms', 'charge:linear', 'bayer=pattern', 'bayer:equal-qe=mono',
@@ -163,7 +163,10 @@ def adc_oracle(ctx, args, kwargs, result, exc, pre):
             ref = np.minimum(ref, rm.LD(info.max))
             ctx.bucket('adc:beyond-dtype-range')
     diff = got.astype(rm.LD) - ref
-    bad = (diff != 0) & ~(frac_tie & (np.abs(diff) <= 1))
+    # (beyond 2**53 counts neighbouring doubles are more than one count apart: the gain polynomial evaluated in double precision is
+    # the floor only to a few ulp of its value)
+    ulps = 4 * rm.EPS * np.abs(p) * (np.abs(p) > 2.0 ** 53)
+    bad = (diff != 0) & ~(frac_tie & (np.abs(diff) <= 1)) & ~(np.abs(diff) <= ulps)
     if bad.any():
         k = np.unravel_index(int(np.argmax(bad)), bad.shape)
         ctx.check(False, 'adc=floor(poly)', f'adc|value|gain_ndim={gain.ndim}',
@@ -303,6 +306,28 @@ def workload(ctx, lentil):
         except Exception as e:
             ctx.check(False, 'charge:qe-forms', f'narrow-float-cube|raises={type(e).__name__}', str(e), desc)
 
+    # ---- a Spectrum efficiency tabulated on a single / half precision wavelength grid (whole nanometres: exact in either type), the
+    # cube's wavelengths given in another unit and exactly AT the tabulated wavelengths: no slice is dropped ----------------------
+    for i in range(max(6, n // 12)):
+        nw = int(rng.integers(2, 7))
+        wave_nm = 400.0 + 50.0 * np.arange(nw)
+        qtab = rng.uniform(0.2, 0.9, size=nw)
+        wdt = [np.float32, np.float16][i % 2]
+        unit = ['um', 'm', 'angstrom', 'nm'][(i // 2) % 4]
+        div = {'um': 1e3, 'm': 1e9, 'angstrom': 0.1, 'nm': 1.0}[unit]
+        cube = rng.uniform(1, 100, size=(nw,) + (int(rng.integers(1, 5)), int(rng.integers(1, 5))))
+        desc = {'charge': 'spectrum-narrow-wave', 'dtype': np.dtype(wdt).name, 'unit': unit, 'nw': nw}
+        ctx.case(desc, ['qe:spectrum-narrow-wave'])
+        try:
+            spec = R.Spectrum(wave_nm.astype(wdt), qtab, waveunit='nm')
+            out = D.collect_charge(cube, wave_nm / div, spec, waveunit=unit)
+            ref = np.tensordot(qtab, cube, axes=(0, 0))
+            ctx.close('charge:qe-forms', np.asarray(out, float), ref, 1e-9, 'charge|spectrum-narrow-wave',
+                      'a QE spectrum tabulated on a single / half precision wavelength grid loses slices when the cube is given in another unit',
+                      desc, scale=float(ref.max()) + 1e-300)
+        except Exception as e:
+            ctx.check(False, 'charge:qe-forms', f'spectrum-narrow-wave|raises={type(e).__name__}', str(e), desc)
+
     # ---- efficiencies in the types and at the wavelengths users hand over: a 0/1 band-pass vector held as bool / uint8 together with an
     # integer photon cube; a table sampled exactly AT its own end wavelengths written in another unit; a single wavelength
     for i in range(max(12, n // 6)):
@@ -415,6 +440,10 @@ def workload(ctx, lentil):
             dt_e = [np.int16, np.uint16, np.int32, np.uint32][int(rng.integers(0, 4))]
             e = np.clip(np.floor(np.abs(e)), 0, np.iinfo(dt_e).max).astype(dt_e)
             ctx.bucket('adc:small-int-frame')
+        elif i % 7 == 5:
+            # electron frames in single / half precision (the capacity, a double, is NOT a number of that type)
+            e = np.abs(e).astype(np.float32 if i % 2 else np.float16) if scale < 6e4 else np.abs(e).astype(np.float32)
+            ctx.bucket('adc:narrow-float-frame')
         neg = bool((e < 0).any())
         coef = lambda size=None: rng.uniform(0.0, 1.0, size=size)
         if form == 'scalar':
@@ -444,6 +473,14 @@ def workload(ctx, lentil):
         dtype = [None, np.uint16, np.int32, np.uint32, np.float32, np.int64][int(rng.integers(0, 6))]
         if i % 11 == 4:
             dtype = [np.uint8, np.int8, np.uint16][i % 3]      # a converter with fewer bits than the signal needs
+        if i % 29 == 9 and e.dtype.kind == 'f' and e.dtype.itemsize == 8:
+            # counts beyond the range of a 64-bit output type rail at its largest value like those of any narrower type
+            e = e.copy()
+            e.flat[0] = float(10 ** rng.uniform(19.5, 30))
+            e.flat[-1] = 9.3e18
+            dtype = [np.int64, np.uint64, int][i % 3]
+            sat = None
+            ctx.bucket('adc:beyond-64-bit')
         saturated = sat is not None and bool((e > sat).any())
         desc = {'adc': form, 'order': order, 'shape': list(shape), 'sat': sat, 'warn': warn, 'dtype': str(dtype),
                 'h': probe.fp_array(e)[:8]}
